@@ -72,7 +72,7 @@ func (tw *tokenWorld) viol(prop, rule, site, format string, a ...any) {
 	tw.o.Violate(prop, rule, tw.site(site), tw.step, format, a...)
 }
 
-var honestClients = []string{"web", "post", "pub", "native", "jwt", "hyb", "odd"}
+var honestClients = []string{"web", "post", "pub", "native", "jwt", "hyb", "odd", "jwt2"}
 
 // foreignHere: the token string is a JWT that names another issuer than the tenant the next request goes to. Such a
 // token is not a live token of this provider-tenant, whatever the shared storage says about its id. (Opaque tokens
@@ -284,6 +284,22 @@ func (tw *tokenWorld) checkRefusal(r *world.Resp, what string) {
 	}
 }
 
+// namesOwner: a caller that is not the artefact's client authenticates correctly as itself and lets the form name the
+// artefact's client (client_id=<owner>): the identity the credentials established must not give way to the form's.
+func (tw *tokenWorld) namesOwner(ch *kernel.Chooser, caller, owner string) (presentation, bool) {
+	if caller == owner || !ch.Bool(1, 2) {
+		return presentation{}, false
+	}
+	p := rightPresentation(tw.w, caller)
+	if p.creds.Mode != "basic" && p.creds.Mode != "assertion" {
+		return presentation{}, false
+	}
+	p.creds.BodyClientID, p.bodyClient = owner, owner
+	p.label = "right+body-names-" + owner
+	tw.o.Probe("foreign-caller-whose-form-names-the-owner")
+	return p, true
+}
+
 // ---- refresh (C07, C05) ----
 
 func (tw *tokenWorld) refresh(ch *kernel.Chooser) string {
@@ -300,6 +316,9 @@ func (tw *tokenWorld) refresh(ch *kernel.Chooser) string {
 	p := tw.pickPresentation(ch, caller)
 	if caller == g.client && ch.Bool(2, 3) {
 		p = rightPresentation(w, caller)
+	}
+	if q, ok := tw.namesOwner(ch, caller, g.client); ok {
+		p = q
 	}
 	form := url.Values{"grant_type": {"refresh_token"}, "refresh_token": {g.refresh}}
 	var req []string
@@ -744,6 +763,9 @@ func (tw *tokenWorld) revoke(ch *kernel.Chooser) string {
 	p := tw.pickPresentation(ch, caller)
 	if ch.Bool(2, 3) {
 		p = rightPresentation(w, caller)
+	}
+	if q, ok := tw.namesOwner(ch, caller, g.client); ok {
+		p = q
 	}
 	tok, what := g.access, "access"
 	if g.refresh != "" && ch.Bool(1, 2) {
